@@ -224,11 +224,29 @@ def jac_zero(tot, x):
     return "unknown", "residual outside the decidable fragment"
 
 
+def _is_one_bound(cnd) -> bool:
+    """``len(bounds) == 1`` / ``bounds.shape[0] == 1``: the test that tells bounds given as one value for all columns from one bound per column."""
+    if not (cnd and cnd[0] == "cmp" and cnd[1] == "=="):
+        return False
+    lens = [s_ for s_ in T.subterms(cnd[2]) if s_ and s_[0] == "f" and s_[1] == "len"]
+    return len(lens) == 1 and cnd[2] in (T.sub(T.ONE, lens[0]), T.sub(lens[0], T.ONE))
+
+
+def per_column(assume=None):
+    """The algebraic rules are decided for one bound per column (len(bounds) == number of columns > 1); what happens when one value is
+    broadcast over several columns is the business of the C04.deriv 'columns' clause."""
+    def a(cnd):
+        if _is_one_bound(cnd):
+            return False
+        return assume(cnd) if assume is not None else None
+    return a
+
+
 def pair_check(ctx, repo, c, fwd_name, inv_name, construct, prefold=("__init__",), fit_first=False):
     """Antisymmetry + round trip for one forward/inverse pair of class *c*."""
     fwd, inv = c.resolve(fwd_name), c.resolve(inv_name)
     bp = (fwd.params[1],)
-    ev = Evaluator(repo, batch_params=bp, no_inline=HELPERS)
+    ev = Evaluator(repo, batch_params=bp, no_inline=HELPERS, assume=per_column())
     for name in prefold:
         m = c.resolve(name)
         if m is not None:
@@ -431,7 +449,7 @@ def deriv_check(ctx, repo, c, construct_prefix):
     for direction in ("forward", "inverse"):
         m = c.resolve(direction)
         ev = Evaluator(repo, batch_params=("x", "y", "x_fit"), no_inline=HELPERS,
-                       assume=lambda cnd: False if cnd in (T.atom("eps"), self_attr("eps")) else None)
+                       assume=per_column(lambda cnd: False if cnd in (T.atom("eps"), self_attr("eps")) else None))
         init = c.resolve("__init__")
         if init is not None:
             fold(repo, init, c, ev=ev)
@@ -609,6 +627,46 @@ def run(ctx):
         ctx.decide(ok, "C04.unit", b.ident, loc_of(b.resolve("to_unit_interval")),
                    "to_unit_interval maps lower -> 0 and upper -> 1",
                    f"to_unit_interval(lower) = {T.show(at_lo)[:120]}, to_unit_interval(upper) = {T.show(at_up)[:120]} (expected 0 and 1)")
+    # one value given for several columns (scalar bounds are broadcast by the arithmetic): the scaling enters the Jacobian once per column
+    for hname, sign in (("to_unit_interval", "forward"), ("from_unit_interval", "inverse")):
+        hm = b.resolve(hname)
+        js = {}
+        for scalar in (True, False):
+            def a_(cnd, scalar=scalar):
+                if _is_one_bound(cnd):
+                    return scalar
+                if scalar and cnd and cnd[0] == "cmp" and any(s_ and s_[0] == "attr" and s_[2] == "ndim" for s_ in T.subterms(cnd)):
+                    return True
+                return None
+            ev_ = Evaluator(repo, batch_params=(hm.params[1],), no_inline=HELPERS, assume=a_)
+            fold(repo, b.resolve("__init__"), b, ev=ev_)
+            _, r_ = fold(repo, hm, b, ev=ev_)
+            r_ = T.strip_raise(r_)
+            js[scalar] = r_[1][1] if r_[0] == "t" and len(r_[1]) == 2 else None
+        ctx.count("functions_folded", 2)
+        if js[True] is None or js[False] is None:
+            ctx.unknown("C04.deriv", f"{b.ident}.{hname}", loc_of(hm), "does not return a (value, log-Jacobian) pair", disc="columns")
+            continue
+        ks = [s_ for s_ in T.subterms(js[True]) if s_ and s_[0] == "s" and s_[1] and s_[1][0] == "attr" and s_[1][2] == "shape"]
+        ok = any(js[True] == T.mul(js[False], k_) for k_ in ks)
+        if not ok:
+            # the other sound shape: the per-parameter terms are summed at call time over an operand that has the input's shape
+            # (log(width) * ones(x.shape), broadcast_to(log(width), x.shape)), so a single width is counted once per column
+            tainted = {hm.params[1]}
+            for _ in range(3):
+                for n_ in walk_no_nested(hm.node):
+                    if isinstance(n_, ast.Assign) and any(isinstance(x_, ast.Name) and x_.id in tainted for x_ in ast.walk(n_.value)):
+                        tainted |= {t_.id for t_ in n_.targets if isinstance(t_, ast.Name)}
+            for n_ in walk_no_nested(hm.node):
+                if isinstance(n_, ast.Call) and isinstance(n_.func, ast.Attribute) and n_.func.attr == "sum":
+                    operands = list(n_.args) + ([n_.func.value] if not (isinstance(n_.func.value, ast.Attribute) and n_.func.value.attr == "xp") else [])
+                    if any(isinstance(x_, ast.Attribute) and x_.attr == "shape" and isinstance(x_.value, ast.Name) and x_.value.id in tainted for o_ in operands for x_ in ast.walk(o_)):
+                        ok = True
+        ctx.decide(ok, "C04.deriv", f"{b.ident}.{hname}", loc_of(hm),
+                   "with one value given for several columns the scaling term is counted once per column (the per-column term times the number of columns)",
+                   f"with bounds given as one value (a scalar: xp.atleast_1d lets it through and the arithmetic broadcasts it over all columns) the log-Jacobian of the scaling is "
+                   f"{T.show(js[True])[:120]}, the same single term as for one column: for d columns the true log|det| is d times that, so {sign} reports a log-Jacobian that is off by "
+                   "(d - 1) log(upper - lower)", disc="columns")
     # utils.logit / sigmoid
     lg, sg = repo.func("aspire.utils:logit"), repo.func("aspire.utils:sigmoid")
     ev = Evaluator(repo, batch_params=(lg.params[0],), assume=lambda c: False if c == T.atom("eps") else None)
@@ -896,7 +954,16 @@ MUTANTS += [
     M("affine log-Jacobian broadcast with ones() of the default width", "src/aspire/transforms.py", "return y, self.log_abs_det_jacobian * self.xp.ones(\n            y.shape[0], device=get_device(y), dtype=self.dtype\n        )",
       "return y, self.log_abs_det_jacobian * self.xp.ones(\n            y.shape[0], device=get_device(y)\n        )", "C04.alloc"),
 ]
+MUTANTS += [
+    M("scalar bounds: column factor dropped from the forward scaling term", _T, "return y, log_j * self._columns_per_bound(y)", "return y, log_j", "C04.deriv"),
+    M("scalar bounds: column factor is always one", _T, "if self._denom.shape[0] == 1 and x.ndim > 1:\n            return x.shape[-1]\n        return 1", "return 1", "C04.deriv"),
+]
+
 NEUTRALS = [
+    M("scaling term summed at call time over an operand of the input's shape", _T, "log_j = self._scale_log_abs_det_jacobian * self.xp.ones(\n            y.shape[0], device=get_device(y), dtype=self.dtype\n        )\n        return y, log_j * self._columns_per_bound(y)",
+      "log_j = -self.xp.sum(\n            self.xp.log(self._denom) * self.xp.ones(y.shape, device=get_device(y), dtype=self.dtype), axis=-1\n        )\n        return y, log_j",
+      more=[("log_j = -self._scale_log_abs_det_jacobian * self.xp.ones(\n            x.shape[0], device=get_device(x), dtype=self.dtype\n        )\n        return x, log_j * self._columns_per_bound(x)",
+             "log_j = self.xp.sum(\n            self.xp.log(self._denom) * self.xp.ones(x.shape, device=get_device(x), dtype=self.dtype), axis=-1\n        )\n        return x, log_j")]),
     M("constant log-Jacobian filled into an array of the transform's dtype", "src/aspire/transforms.py", "log_j = self._scale_log_abs_det_jacobian * self.xp.ones(\n            y.shape[0], device=get_device(y), dtype=self.dtype\n        )",
       "log_j = self.xp.full((y.shape[0],), self._scale_log_abs_det_jacobian, dtype=self.dtype, device=get_device(y))"),
     M("log-Jacobian built without in-place updates", "src/aspire/transforms.py", "x, log_j_affine = self._affine_transform.forward(x)\n            log_abs_det_jacobian += log_j_affine",
